@@ -195,7 +195,19 @@ def token_indices(ctx, reach, fns):
     # the helper itself
     h = fns.get(P + "require_at_least_n_tokens")
     if h:
-        ok = anyshow(h["body"], "if(tokens.len()<n)") and any(x.get("k") == "ctor" and callee(x).endswith("Result::Ok") for x in walk(h["body"]))
+        hp = param_ids(h) + [None] * 4            # require_at_least_n_tokens(&mut self, line, tokens, n)
+        hx = Index(h["body"])
+        ok = False
+        for okc in [x for x in hx.nodes if x.get("k") == "ctor" and callee(x).endswith("Result::Ok")]:
+            # Ok is returned exactly when !(tokens.len() < n)
+            for c_, pol in norm_.path_conditions(hx, okc):
+                if c_.get("k") == "binary" and c_["op"] in ("<", ">=", ">", "<="):
+                    l_, r_, op_ = c_["l"], c_["r"], c_["op"]
+                    if op_ in (">", "<="):
+                        l_, r_, op_ = r_, l_, {">": "<", "<=": ">="}[op_]
+                    lb, lms = chain(resolve(l_))
+                    if [m_[0] for m_ in lms] == ["len"] and is_local(lb, hp[2]) and is_local(r_, hp[3]):
+                        ok = (op_ == "<" and pol is False) or (op_ == ">=" and pol is True)
         ctx.inst("R18.2", "require_at_least_n_tokens:semantics", ok, h["span"], "require_at_least_n_tokens must fail exactly when tokens.len() < n")
         ctx.note("R18.2: the two token reads inside require_at_least_n_tokens (tokens[1], tokens.last()) are reached only after parse_line matched tokens.get(1) as Some")
 
@@ -272,12 +284,13 @@ def own_base_guarantees(f, ix):
     out = []
     for n in ix.nodes:
         if n.get("k") == "if" and n["then"].get("ty") == "!" or (n.get("k") == "if" and any(x.get("k") == "return" for x in walk(n["then"]))):
-            cs = show(n["cond"]).replace(" ", "")
-            if cs == "tokens.is_empty()":
+            cb_, cms_ = chain(resolve(n["cond"]))
+            if [m_[0] for m_ in cms_] == ["is_empty"] and c08.tok_index({"k": "index", "e": cb_, "i": {"k": "lit", "v": 0}}) == 0:
                 out.append((n, 1))
         if n.get("k") == "let" and "init" in n:
             init = peel(n["init"])
-            if init.get("k") == "match" and show(init["scrut"]).replace(" ", "") == "tokens.get(1)":
+            gb_, gms_ = chain(init["scrut"]) if init.get("k") == "match" else ({}, [])
+            if init.get("k") == "match" and [m_[0] for m_ in gms_] == ["get"] and peel(gms_[0][1][0]).get("v") == 1 and c08.tok_index({"k": "index", "e": gb_, "i": {"k": "lit", "v": 0}}) == 0:
                 none_diverges = any(show_pat(a["pat"]).endswith("None") and (a["body"].get("ty") == "!" or any(x.get("k") == "return" for x in walk(a["body"]))) for a in init["arms"])
                 if none_diverges:
                     out.append((n, 2))
@@ -665,7 +678,7 @@ def typed(ctx, c):
             ok = cc.get("k") == "mcall" and callee(cc) == P + "get_tpe_from_id" and c08.tok_index(cc["args"][1]) == 2
         ctx.inst("R18.5", "%s:sort-from-table" % name, ok, f["span"], "%s must create its symbol with the sort looked up from token 2 in the sort table" % name)
     g = ctx.fn("patronus", P + "get_tpe_from_id")
-    ok = anyshow(g["body"], "self.type_map.get(&tpe_id)")
+    ok = any(x.get("k") == "mcall" and x["name"] == "get" and field_path(x["recv"]) and field_path(x["recv"])[0] == "self" and field_path(x["recv"])[2] == ["type_map"] for x in walk(g["body"]))
     ctx.inst("R18.5", "get_tpe_from_id:from-type_map", ok, g["span"], "sorts must only come from the table filled by parse_sort")
     # operator results pass the declared sort check: re-evaluate C08's R08.5 here
     for fname in ("parse_unary_op", "parse_bin_op", "parse_ternary_op"):
